@@ -382,16 +382,26 @@ impl Imd {
         debug!("cannot find cyl {} head {}",cyl,head);
         Err(img::Error::SectorAccess)
     }
+    /// sectors per track and sector shift of track `off`, where the blocks of a file system start;
+    /// the track has to be there and hold at least one sector
+    fn layout_of_track(&self,off: u16) -> Result<(usize,u8),DYNERR> {
+        match self.tracks.get(off as usize) {
+            Some(trk) if trk.sectors>0 => Ok((trk.sectors as usize,trk.sector_shift)),
+            _ => {
+                log::debug!("track {} is missing or empty",off);
+                Err(Box::new(super::Error::TrackCountMismatch))
+            }
+        }
+    }
     fn check_user_area_up_to_cyl(&self,cyl: usize,off: u16) -> STDRESULT {
-        let sectors = self.tracks[off as usize].sectors;
-        let sector_shift = self.tracks[off as usize].sector_shift;
+        let (sectors,sector_shift) = self.layout_of_track(off)?;
         if cyl*self.heads >= self.tracks.len() {
             log::error!("track {} was requested, max is {}",cyl*self.heads,self.tracks.len()-1);
             return Err(Box::new(super::Error::TrackCountMismatch));
         }
         for i in off as usize..cyl*self.heads+1 {
             let trk = &self.tracks[i];
-            if trk.sectors!=sectors || trk.sector_shift!=sector_shift {
+            if trk.sectors as usize!=sectors || trk.sector_shift!=sector_shift {
                 warn!("heterogeneous layout in user tracks");
                 return Err(Box::new(super::Error::ImageTypeMismatch));
             }
@@ -460,15 +470,14 @@ impl img::DiskImage for Imd {
         trace!("reading {}",addr);
         match addr {
             Block::CPM((_block,_bsh,off)) => {
-                let secs_per_track = self.tracks[off as usize].sectors;
-                let sector_shift = self.tracks[off as usize].sector_shift;
+                let (secs_per_track,sector_shift) = self.layout_of_track(off)?;
                 let mut ans: Vec<u8> = Vec::new();
-                let deblocked_ts_list = addr.get_lsecs((secs_per_track << sector_shift) as usize);
+                let deblocked_ts_list = addr.get_lsecs(secs_per_track << sector_shift);
                 let chs_list = skew::cpm_blocking(deblocked_ts_list, sector_shift,self.heads)?;
                 for [cyl,head,lsec] in chs_list {
                     self.check_user_area_up_to_cyl(cyl, off)?;
                     let skew_table = self.get_skew(head)?;
-                    match self.read_sector(cyl,head,skew_table[lsec-1] as usize) {
+                    match self.read_sector(cyl,head,*skew_table.get(lsec-1).ok_or(super::Error::SectorAccess)? as usize) {
                         Ok(mut slice) => {
                             ans.append(&mut slice);
                         },
@@ -478,9 +487,9 @@ impl img::DiskImage for Imd {
                 Ok(ans)
             },
             Block::FAT((_sec1,_secs)) => {
-                let secs_per_track = self.tracks[0].sectors;
+                let (secs_per_track,_) = self.layout_of_track(0)?;
                 let mut ans: Vec<u8> = Vec::new();
-                let deblocked_ts_list = addr.get_lsecs(secs_per_track as usize);
+                let deblocked_ts_list = addr.get_lsecs(secs_per_track);
                 let chs_list = skew::fat_blocking(deblocked_ts_list,self.heads)?;
                 for [cyl,head,lsec] in chs_list {
                     self.check_user_area_up_to_cyl(cyl, 0)?;
@@ -500,9 +509,8 @@ impl img::DiskImage for Imd {
         trace!("writing {}",addr);
         match addr {
             Block::CPM((_block,_bsh,off)) => {
-                let secs_per_track = self.tracks[off as usize].sectors;
-                let sector_shift = self.tracks[off as usize].sector_shift;
-                let deblocked_ts_list = addr.get_lsecs((secs_per_track << sector_shift) as usize);
+                let (secs_per_track,sector_shift) = self.layout_of_track(off)?;
+                let deblocked_ts_list = addr.get_lsecs(secs_per_track << sector_shift);
                 let chs_list = skew::cpm_blocking(deblocked_ts_list, sector_shift,self.heads)?;
                 let mut src_offset = 0;
                 let psec_size = SECTOR_SIZE_BASE << sector_shift;
@@ -511,12 +519,12 @@ impl img::DiskImage for Imd {
                 for [cyl,head,lsec] in &chs_list {
                     self.check_user_area_up_to_cyl(*cyl, off)?;
                     let skew_table = self.get_skew(*head)?;
-                    self.read_sector(*cyl,*head,skew_table[*lsec-1] as usize)?;
+                    self.read_sector(*cyl,*head,*skew_table.get(*lsec-1).ok_or(super::Error::SectorAccess)? as usize)?;
                 }
                 for [cyl,head,lsec] in chs_list {
                     self.check_user_area_up_to_cyl(cyl, off)?;
                     let skew_table = self.get_skew(head)?;
-                    match self.write_sector(cyl,head,skew_table[lsec-1] as usize,&padded[src_offset..src_offset+psec_size].to_vec()) {
+                    match self.write_sector(cyl,head,*skew_table.get(lsec-1).ok_or(super::Error::SectorAccess)? as usize,&padded[src_offset..src_offset+psec_size].to_vec()) {
                         Ok(_) => src_offset += SECTOR_SIZE_BASE << sector_shift,
                         Err(e) => return Err(e)
                     }
@@ -525,9 +533,9 @@ impl img::DiskImage for Imd {
             },
             Block::FAT((_sec1,_secs)) => {
                 // TODO: do we need to handle variable sectors per track
-                let secs_per_track = self.tracks[0].sectors;
+                let (secs_per_track,_) = self.layout_of_track(0)?;
                 let sec_size = 128 << self.tracks[0].sector_shift as usize;
-                let deblocked_ts_list = addr.get_lsecs(secs_per_track as usize);
+                let deblocked_ts_list = addr.get_lsecs(secs_per_track);
                 let chs_list = skew::fat_blocking(deblocked_ts_list,self.heads)?;
                 let mut src_offset = 0;
                 let padded = super::quantize_block(dat, chs_list.len()*sec_size);
